@@ -36,6 +36,24 @@ def run(tier, seed):
             elif r['status'] == 'sat':
                 ws = [f for f in r['failed'] if 'WRITESET' in f['desc']]
                 if ws: R.violation('regex::expr::match writes shared state: %s' % ws[0]['desc'], {'query': r['id'], 'kind': 'rx', 'pattern': r['meta']['pattern'], 'LMAX': 3, 'input_hex': vlib.hexs((r['inputs'].get('IN') or [])[:(r['inputs'].get('N') or 0)])})
+    # heap-backed stacks (string_buffer, string_view_buffer, user buffers -> std::vector): the solver gets no verdict on this instantiation (heap model, DESIGN 10.2),
+    # so only the STATIC part of the frame condition is checked: the translated parse path of a user-buffer instantiation must contain no store whose address is a
+    # module-level object (decided syntactically on the IR by the translator, not by the solver; labelled as such)
+    import parsecheck, emit
+    g0 = d['etf']
+    cpp = emit.parse_wrapper_cpp(g0).replace('#include "hv.h"', '#include "hv.h"\n#include "rxbuf.h"').replace("auto r = g::p.parse(o, cstring_buffer<LEN + 1>(b), s);", "hv::sym_buf ub{b, LEN};\n    auto r = g::p.parse(o, ub, s);")
+    hb = parsecheck.ParseCase(wd, g0, 2, ['accept'], mode='writeset', wrapper=cpp, tag='heap')
+    hb.unit.build(); R.add_unit(hb.unit, desc='static frame check: user buffer with std::vector-backed stacks')
+    if hb.unit.ok:
+        sites = []
+        sm = hb.unit.info.get('srcmap') or {}
+        for n, ln in enumerate(open(hb.unit.c), 1):
+            m = re.search(r'WRITESET: (?:store to|memcpy into) module global (g_\w+)', ln)
+            if m: sites.append((m.group(1), sm.get(str(n), '?')))
+        R.extra['static_frame_check_heap_instantiation'] = {'direct_stores_to_module_globals': len(sites)}
+        if sites:
+            R.violation('the parse path for heap-backed buffers stores into module-level object(s) %s (static frame check on the IR of the std::vector-backed instantiation; not solver-decided: shared mutable state across calls / threads)' % (
+                        ', '.join(sorted(set('%s at %s' % s for s in sites)))[:400]), {'query': 'static_frame_heap', 'kind': 'build', 'unit': hb.unit.name, 'input_hex': ''})
     rc = cp.run_deferred(R, tier, cases,
         'one query per (unit, entry point in {parse, context_parse, parse after an earlier parse, regex::expr::match}, exact input length): for every byte string no store of the real code targets any '
         'module-level object (frame condition), and the result of a call after an earlier call on the same parser object equals the reference of the isolated call',
